@@ -1,6 +1,7 @@
 # C03 -- restart after a crash converges to the uninterrupted result.
 import os, random, shutil
 from tools import vlib, t3
+from tools import ks
 
 MODULE = "PropC03"
 THEOREMS = ["C03_code_conforms", "C03_complete_is_result", "C03_converges", "C03_any_history", "C03_any_history_run", "C03_no_reexecution", "C03_refuses_leftovers", "C03_midfinalize_refuted"]
@@ -135,6 +136,7 @@ def run(rep, tier, seed):
         for pt in rng.sample(pts, min(len(pts), 12 if tier == "quick" else 60)):
             cases.append(((sp, model), pt, seed, rng.choice(pts)))
     results = t3.run_many(history_case, cases)
+    results += t3.run_many(ks.ks_case, [(seed, i, ("crash",)) for i in range(24 if tier == "quick" else 400)])
     kf = vlib.known_findings("C03")
     d2_listed = any(f["kind"] == "crash-between-renames-of-one-task" for f in kf)
     nd2 = 0
@@ -150,6 +152,7 @@ def run(rep, tier, seed):
     rep.cov["evaluations"] = len(results) * 3
     rep.cov["distinct_nontrivial"] = len({(r["spec"], r["point"], r["second"]) for r in results})
     rep.cov["rule"] = "histories on workflows with single- and two-output tasks, a Go-function task and a join: kill the process group at every hit of every hook point of Task.Execute / FinalizePaths / Process.Run / createTasks / runProcs (plus sampled port / slot points); re-run without cleaning (must refuse or complete, never adopt leftovers, finalized files stay correct); remove temp dirs and FIFOs; optionally crash the recovery run at a second point and clean again; run again: must exit 0 with exactly the file set and bytes of the uninterrupted run, without executing tasks whose outputs were final, and without touching their files"
+    rep.cov["rule"] += "; plus kitchen-sink workflows (tools/ks.py: random workflows decorated with tagging components, sub-streams, Concatenator / FileSplitter, streamed pairs, component parameter feeders, Go-function and multi-core processes, RunTo) judged by the model-free crash / clean up / re-run oracle"
     rep.cov["samples"] = [{"point": results[3]["point"], "second": results[3]["second"], "refused": results[3]["refused"], "leftovers": results[3]["leftovers"]}, results[0]["spec"]]
     rep.notes["input_distribution"] = {"workflows": nwf, "histories": len(results), "nested_crash_histories": sum(1 for r in results if r["second"]),
                                        "reruns_refused_because_of_leftovers": sum(1 for r in results if r["refused"]), "crash_states_with_leftovers": sum(1 for r in results if r["leftovers"])}
